@@ -33,6 +33,12 @@ pub struct CloseCase {
     pub close: bool,
     /// number of endpoints bound
     pub binds: u8,
+    /// fault injected just before close (ipc only): 1 = the socket file is replaced by a
+    /// directory, so close cannot remove it - a failure it must report; 2 = the socket file has
+    /// already been deleted by somebody else (the goal is met either way; only "no hang, no
+    /// listener left" is asserted)
+    #[serde(default)]
+    pub sabotage: u8,
 }
 
 pub fn close_outcome(c: &CloseCase) -> Outcome {
@@ -40,6 +46,9 @@ pub fn close_outcome(c: &CloseCase) -> Outcome {
     o.nontrivial = !matches!(c.prefix, Prefix::BoundOnly);
     o.class(format!("{:?}", c.prefix).split('(').next().unwrap().to_string());
     o.class(if c.close { "close" } else { "drop" });
+    if c.close && c.sabotage > 0 && c.transport == Transport::Ipc {
+        o.class("close-meets-a-failure");
+    }
     let c2 = c.clone();
     let (r, panics) = capture_panics(|| {
         realnet::run_net(async move {
@@ -190,6 +199,18 @@ pub fn close_outcome(c: &CloseCase) -> Outcome {
                     }
                 }
             }
+            // ---- fault injection
+            let mut sabotaged: Option<std::path::PathBuf> = None;
+            if c.close && c.sabotage > 0 {
+                if let Some(p) = endpoints.iter().find_map(|e| realnet::ipc_path_of(e)) {
+                    let _ = std::fs::remove_file(&p);
+                    if c.sabotage == 1 {
+                        let _ = std::fs::create_dir(&p);
+                        let _ = std::fs::write(p.join("keep"), b"x");
+                    }
+                    sabotaged = Some(p);
+                }
+            }
             // ---- the operation
             if c.close {
                 let errs = match tokio::time::timeout(LIMIT, realnet::sock_close(s)).await {
@@ -199,8 +220,13 @@ pub fn close_outcome(c: &CloseCase) -> Outcome {
                         return f;
                     }
                 };
-                if !errs.is_empty() {
+                if sabotaged.is_none() && !errs.is_empty() {
                     fail!(f, format!("C17/{}/close/spurious-error", who), "close() reported {:?} in a fault-free history", errs);
+                }
+                if let (Some(p), 1) = (&sabotaged, c.sabotage) {
+                    if errs.is_empty() {
+                        fail!(f, format!("C17/{}/close/failure-not-reported", who), "the socket file {} had been replaced by a directory: close() could not remove it and returned no error", p.display());
+                    }
                 }
                 // by the time close returns: listeners gone
                 for e in &endpoints {
@@ -208,7 +234,7 @@ pub fn close_outcome(c: &CloseCase) -> Outcome {
                         fail!(f, format!("C17/{}/close/endpoint-still-accepting-after-close", who), "a fresh connection to {} succeeded after close() returned", e);
                     }
                     if let Some(p) = realnet::ipc_path_of(e) {
-                        if p.exists() {
+                        if p.exists() && sabotaged.as_ref() != Some(&p) {
                             fail!(f, format!("C17/{}/close/ipc-file-left-behind", who), "{} still exists after close() returned", p.display());
                         }
                     }
@@ -286,8 +312,15 @@ pub fn grid() -> Vec<CloseCase> {
         for transport in [Transport::TcpV4, Transport::TcpV6, Transport::Ipc] {
             for prefix in [Prefix::BoundOnly, Prefix::Accepted(2), Prefix::ConnectedOut, Prefix::MidTraffic, Prefix::PendingHandshake(10)] {
                 for close in [true, false] {
-                    v.push(CloseCase { kind, transport, prefix, close, binds: 1 });
+                    v.push(CloseCase { kind, transport, prefix, close, binds: 1, sabotage: 0 });
                 }
+            }
+        }
+        // close meets a failure: the ipc socket file cannot be removed / is already gone
+        for prefix in [Prefix::BoundOnly, Prefix::Accepted(2)] {
+            for sabotage in [1u8, 2] {
+                v.push(CloseCase { kind, transport: Transport::Ipc, prefix, close: true, binds: 1, sabotage });
+                v.push(CloseCase { kind, transport: Transport::Ipc, prefix, close: true, binds: 2, sabotage });
             }
         }
     }
@@ -323,6 +356,7 @@ pub fn run(ctx: &Ctx) -> (Report, PropertyMeta) {
             },
             close: s.bool(),
             binds: s.range(1, 3) as u8,
+            sabotage: if s.chance(1, 8) { s.range(1, 2) as u8 } else { 0 },
         },
         close_outcome,
     );
